@@ -89,6 +89,9 @@ fn main() {
         "harden" => drivers::harden::run(&mut ctx),
         "ros2" => drivers::ros2::run(&mut ctx),
         "ros2sys" => drivers::ros2sys::run(&mut ctx),
+        "c12" => drivers::derive::run_c12(&mut ctx),
+        "c13" => drivers::derive::run_c13(&mut ctx),
+        "cache" => drivers::cache::run(&mut ctx),
         "demand" => drivers::cost::run_demand(&mut ctx),
         d => {
             eprintln!("unknown driver {}", d);
